@@ -63,6 +63,8 @@ def probe_pool():
         ("num5-operand-not", b("NOT"), [b"\x00\x00\x00\x80\x00"]),
         ("num-nonminimal-not", b("NOT", "NOT"), [b"\x01\x00"]),
         ("num-nonminimal-within", b("WITHIN"), [b"\x01", b"\x02", b"\x03\x00"]),
+        ("z:lshift", b("8", "1", "LSHIFT"), []), ("z:rshift", b("8", "2", "RSHIFT", "DROP", "1"), []), ("z:mul", b("3", "4", "MUL"), []), ("z:div", b("9", "2", "DIV"), []),
+        ("z:cat", b("1", "2", "CAT"), []), ("z:2mul-nonmin", b("2MUL", "DROP", "1"), [b"\x01\x00"]), ("z:lshift-nonmin", b("LSHIFT", "DROP", "1"), [b"\x01", b"\x01\x00"]),
         ("codesep", b("1", "CODESEPARATOR"), []),
         ("findanddelete", G.push(DER) + b(KEY, "CHECKSIG", "NOT"), []),
         ("minimalif", b("IF", "1", "ELSE", "1", "ENDIF"), [b"\x02"]),
@@ -172,7 +174,7 @@ def run(chk):
             for k in steps:
                 n += 1
                 fl = sorted(order[:k])
-                j = SessionJob("m%d:%s:%s:%d" % (n, name, sv, k), script, stack, fl, sv, cmds=["run"], cmp=drivers.CMP_C01, weight=1000 if sv == "TAPSCRIPT" else 0)
+                j = SessionJob("m%d:%s:%s:%d" % (n, name, sv, k), script, stack, fl, sv, z=name.startswith("z:"), cmds=["run"], cmp=drivers.CMP_C01, weight=1000 if sv == "TAPSCRIPT" else 0)
                 jobs.append(j); chain.append(j)
             chains.append(chain)
     outcome = {}
